@@ -4,3 +4,4 @@ package udp
 
 const c27Variant = ""
 const c27StrictAlign = false
+const c27ListenDiv = 1
